@@ -43,6 +43,47 @@ def diff(a, b):
     return out
 
 
+def ownership(P):
+    """Hypothesis of the frame theorem (C14.flag_write_frame) on the real object graph with ALL modules imported: the
+    top-level Alternation object of a rule is reached (structurally, not through rule references) from no rule of another class."""
+    import bundled
+    for m in bundled.module_names():
+        bundled.load(m)
+    reach = {}  # id(alternation) -> set of (class name, rule name) whose definition structurally contains it
+
+    def walk(p, who, seen):
+        if id(p) in seen or isinstance(p, P.Rule):
+            return
+        seen.add(id(p))
+        if isinstance(p, P.Alternation):
+            reach.setdefault(id(p), set()).add(who)
+            for q in p.parsers:
+                walk(q, who, seen)
+        elif isinstance(p, P.Concatenation):
+            for q in p.parsers:
+                walk(q, who, seen)
+        elif isinstance(p, P.Option):
+            walk(p.parser, who, seen)
+        elif isinstance(p, P.Repetition):
+            walk(p.element, who, seen)
+
+    rules = list(P.Rule._obj_map.items())
+    for (cls, _), r in rules:
+        d = getattr(r, "definition", None)
+        if d is not None:
+            walk(d, (cls.__module__ + "." + cls.__name__, r.name), set())
+    bad = []
+    tops = 0
+    for (cls, _), r in rules:
+        d = getattr(r, "definition", None)
+        if isinstance(d, P.Alternation):
+            tops += 1
+            owners = {w[0] for w in reach.get(id(d), ())}
+            if len(owners) > 1:
+                bad.append((cls.__module__ + "." + cls.__name__, r.name, sorted(reach[id(d)])[:6]))
+    return tops, bad
+
+
 def run(ctx):
     P = lib.import_repo()
     import bundled
@@ -70,6 +111,13 @@ def run(ctx):
     alone = {j[0]: r for j, r in zip(jobs, results) if not j[1] and not j[2]}
     found = False
     rep = 0
+    tops, notowned = ownership(P)
+    for cname, rname, who in notowned[:3]:
+        found = True
+        rep += 1
+        ctx.report("the top-level Alternation object of %s rule %r is shared with other grammar classes: %s (a first-match flag set through one changes the others)"
+                   % (cname, rname, who), {"kind": "ownership", "class": cname, "rule": rname, "reached_from": [list(w) for w in who]},
+                   key="ownership:%s:%s" % (cname, rname))
     evals = 0
     rules = 0
     for j, r in zip(jobs, results):
@@ -99,7 +147,7 @@ def run(ctx):
                 "(thorough: also every single other module before/after, and random full orders); per rule: first_match_alternation and parse() of "
                 "derived + mutated sentences; distinct_nontrivial = number of bundled rules observed",
         "samples": [{"target": j[0], "pre": j[1][:3], "post": j[2][:3]} for j in jobs[:4]],
-        "processes": len(jobs), "modules": len(mods),
+        "processes": len(jobs), "modules": len(mods), "top_level_alternations_checked_for_ownership": tops, "not_owned": len(notowned),
     })
     ctx.assumptions.append("CPython's import machinery is trusted; subprocess matrices sample import sets/orders (quick: all-before / all-after; thorough: every ordered pair)")
     cc.conclude(ctx, 0, found)
